@@ -32,6 +32,18 @@ for d in sorted(glob.glob(f"{V}/seeded/*/meta.json")):
     mm = re.search(r"(?i)(needs?|trigger|what it needs)[^\n]*:?\s*(.*)", notes)
     need = (mm.group(0) if mm else notes.strip().split("\n")[0])[:230].replace("|", "/").replace("\n", " ")
     lines.append(f"| {m['id']} | {m['property']} | {need} | {', '.join(m.get('detected_by', [])) or 'NOT DETECTED'} |")
+lines += ["", "## Appendix F - what the committed evidence files say (quick tier, unloaded 16-core run)", "",
+          "| property | spaces (members each) | cases | executions on the real code | distinct non-trivial | states / transitions | wall s |",
+          "|---|---|---|---|---|---|---|"]
+for pid in [f"C{i:02d}" for i in range(1, 21)]:
+    ef = f"{V}/evidence/{pid}.json"
+    if not os.path.exists(ef):
+        continue
+    e = json.load(open(ef))
+    c = e["coverage"]
+    sp = "; ".join(f"{k} ({v['cases']})" for k, v in c.get("spaces", {}).items())
+    st = f"{c.get('states', '-')} / {c.get('transitions', '-')}" if "states" in c else "-"
+    lines.append(f"| {pid} | {sp[:420]} | {c.get('programs')} | {c.get('evaluations')} | {c.get('distinct_nontrivial')} | {st} | {e['wall_s']} |")
 lines += ["", "<!-- END GENERATED APPENDIX -->"]
 p = f"{V}/DESIGN.md"
 s = open(p).read()
